@@ -16,6 +16,22 @@ pub fn deadline_after(now: Instant, expires_in: Duration) -> Instant {
         .unwrap_or_else(|| now + Duration::from_secs(100 * 365 * 24 * 60 * 60))
 }
 
+/// Parse a decimal integer the way Redis does: the canonical form only, i.e. an optional '-', no
+/// '+', no leading zeros, no "-0", no surrounding white space (Rust's i64 parser accepts "+5"
+/// and "007")
+pub fn parse_strict_i64(bytes: &[u8]) -> Option<i64> {
+    let digits = bytes.strip_prefix(b"-").unwrap_or(bytes);
+    let canonical = match digits {
+        [] => false,
+        [b'0'] => bytes.len() == 1,
+        [first, rest @ ..] => (b'1'..=b'9').contains(first) && rest.iter().all(|b| b.is_ascii_digit()),
+    };
+    if !canonical {
+        return None;
+    }
+    std::str::from_utf8(bytes).ok()?.parse::<i64>().ok()
+}
+
 /// All possible Redis value types
 #[derive(Debug, Clone)]
 pub enum Value {
@@ -112,12 +128,7 @@ impl Value {
     /// Try to parse string value as integer
     pub fn as_integer(&self) -> Option<i64> {
         match self {
-            Value::String(bytes) => {
-                std::str::from_utf8(bytes)
-                    .ok()?
-                    .parse::<i64>()
-                    .ok()
-            }
+            Value::String(bytes) => parse_strict_i64(bytes),
             _ => None,
         }
     }
